@@ -130,7 +130,10 @@ pub fn spec(args: &[String]) -> i32 {
             let inp_has_bound = rule_for_label.split(|c| c == '>').next().map_or(false, |i| i.contains('$'));
             let inp_part = rule_for_label.split(|c| c == '>' || c == '→' || c == '=' || c == '-').next().unwrap_or("");
             let has_empty_input_term = inp_part.split(',').any(|t| { let t = t.trim(); t == "*" || t == "∅" });
-            let rtype = if rule_for_label.replace(' ', "").contains("(,") { "empty-optional" } else if rule_for_label.replace(' ', "").contains("($,0)") { "boundary-only-unbounded-optional" } else if head.starts_with('*') || head.starts_with('∅') || has_empty_input_term { "insertion" } else if inp_has_bound && !rule_for_label.contains('&') && !rule_for_label.contains("> *") && !rule_for_label.contains("> ∅") { "substitution-with-boundary-input" } else if rule_for_label.contains('&') { "metathesis" } else if rule_for_label.contains("> *") || rule_for_label.contains("> ∅") { if inp_has_bound { "deletion-with-boundary-input" } else { "deletion" } } else { "substitution" };
+            let zero_width_set_opt = { let sq: String = rule_for_label.chars().filter(|c| !c.is_whitespace()).collect();
+                // an unbounded optional `({…},0)` / `({…},n:0)` whose set holds a boundary: one alternative matches without consuming
+                sq.match_indices("({").any(|(i, _)| { let rest = &sq[i..]; match rest.find(')') { Some(j) => { let grp = &rest[..=j]; (grp.ends_with(",0)") || grp.ends_with(":0)")) && grp.find('}').map_or(false, |k| grp[..k].contains('#') || grp[..k].contains('$')) }, None => false } }) };
+            let rtype = if rule_for_label.replace(' ', "").contains("(,") { "empty-optional" } else if rule_for_label.replace(' ', "").contains("($,0)") { "boundary-only-unbounded-optional" } else if zero_width_set_opt { "zero-width-set-in-unbounded-optional" } else if head.starts_with('*') || head.starts_with('∅') || has_empty_input_term { "insertion" } else if inp_has_bound && !rule_for_label.contains('&') && !rule_for_label.contains("> *") && !rule_for_label.contains("> ∅") { "substitution-with-boundary-input" } else if rule_for_label.contains('&') { "metathesis" } else if rule_for_label.contains("> *") || rule_for_label.contains("> ∅") { if inp_has_bound { "deletion-with-boundary-input" } else { "deletion" } } else { "substitution" };
             let kind = if let Some(p) = what.strip_prefix("panic ") {
                 let (msg, loc) = match p.rsplit_once(" @ ") { Some((m, l)) => (m, l), None => (p, "?") };
                 let one_past = { // "the len is N but the index is N": an index running exactly one past the end of what it indexes
